@@ -46,6 +46,8 @@ type Result struct {
 	Cases       []json.RawMessage // lines printed as <<"CASE", "json">>
 	Printed     []string          // other PrintT lines
 	RejectedAt  int               // TRACE_REJECTED_AT_LINE n (0 = none)
+	Verdicts    map[int]Verdict   // <<"VERDICT", line, ok, how>>
+	Expects     map[int]json.RawMessage // <<"EXPECT", line, "json">>
 	ZeroCover   []string          // actions with zero coverage (when Coverage)
 	ActionCover map[string]int64
 	Output      string
@@ -60,6 +62,17 @@ var (
 	reCase   = regexp.MustCompile(`^<<"CASE", "(.*)">>$`)
 	reRej    = regexp.MustCompile(`TRACE_REJECTED_AT_LINE", (\d+)`)
 	reCover  = regexp.MustCompile(`^<(\w+) line \d+, col \d+ to line \d+, col \d+ of module (\w+)>: (\d+):(\d+)`)
+)
+
+// Verdict is one judged trace line.
+type Verdict struct {
+	OK  bool
+	How string
+}
+
+var (
+	reVerdict = regexp.MustCompile(`^<<"VERDICT", (\d+), (TRUE|FALSE), "([^"]*)">>$`)
+	reExpect  = regexp.MustCompile(`^<<"EXPECT", (\d+), "(.*)">>$`)
 )
 
 // SpecDir returns the directory holding the specification suite.
@@ -144,14 +157,18 @@ func Exec(r Run) (*Result, error) {
 	cmd := exec.Command("timeout", args...)
 	cmd.Dir = dir
 	cmd.Env = os.Environ()
+	// UTF-8 on stdout: PrintT / ToJson output carries non-ASCII string values
+	jopts := "-Dfile.encoding=UTF-8 -Dstdout.encoding=UTF-8 -Dsun.stdout.encoding=UTF-8"
 	if r.DFS {
-		cmd.Env = append(cmd.Env, "JAVA_TOOL_OPTIONS=-Dtlc2.tool.queue.IStateQueue=StateDeque")
+		jopts += " -Dtlc2.tool.queue.IStateQueue=StateDeque"
 	}
+	cmd.Env = append(cmd.Env, "JAVA_TOOL_OPTIONS="+jopts, "LC_ALL=C.UTF-8")
 	var out bytes.Buffer
 	cmd.Stdout, cmd.Stderr = &out, &out
 	start := time.Now()
 	runErr := cmd.Run()
-	res := &Result{Output: out.String(), WallS: time.Since(start).Seconds(), ActionCover: map[string]int64{}}
+	res := &Result{Output: out.String(), WallS: time.Since(start).Seconds(), ActionCover: map[string]int64{},
+		Verdicts: map[int]Verdict{}, Expects: map[int]json.RawMessage{}}
 	if ee, ok := runErr.(*exec.ExitError); ok && ee.ExitCode() == 124 {
 		res.TimedOut = true
 	}
@@ -166,6 +183,19 @@ func Exec(r Run) (*Result, error) {
 			var s string
 			if err := json.Unmarshal([]byte(`"`+m[1]+`"`), &s); err == nil {
 				res.Cases = append(res.Cases, json.RawMessage(s))
+			}
+			continue
+		}
+		if m := reVerdict.FindStringSubmatch(line); m != nil {
+			n, _ := strconv.Atoi(m[1])
+			res.Verdicts[n] = Verdict{OK: m[2] == "TRUE", How: m[3]}
+			continue
+		}
+		if m := reExpect.FindStringSubmatch(line); m != nil {
+			n, _ := strconv.Atoi(m[1])
+			var s string
+			if err := json.Unmarshal([]byte(`"`+m[2]+`"`), &s); err == nil {
+				res.Expects[n] = json.RawMessage(s)
 			}
 			continue
 		}
